@@ -52,6 +52,6 @@ Report ==
 BadState == {n \in {"C02_PlainTree", "C03_KeyIsNearest", "C10_Mask"} :
                 CASE n = "C02_PlainTree" -> ~C02_PlainTree [] n = "C03_KeyIsNearest" -> ~C03_KeyIsNearest
                   [] n = "C10_Mask" -> ~C10_Mask}
-ReportState == l > 1 => PrintT(<<"TRACE", ToJson([t |-> tid, l |-> l - 1, bo |-> {}, bi |-> BadState])>>)
+ReportState == l > 1 => PrintT(<<"TRACE", ToJson([t |-> tid, l |-> l - 1, bo |-> {}, bi |-> BadState, st |-> TRUE])>>)
 TraceView == <<cfg, tid, l>>
 ====
